@@ -4,10 +4,10 @@ CONSTANTS
   MaxBodies = 4
   JTypes <- AllJ
   Axes <- Ax6
-  Offsets <- K_Off
+  Offsets <- D_OffMix
   Rots <- K_Rot
   Anchors <- K_Anc
-  SitePos <- K_Site
+  SitePos <- D_Site0
   SiteRots <- K_SRot
   Masses <- K_Mass
   Inertias <- K_Inr
@@ -28,8 +28,15 @@ CONSTANTS
   TenDamps <- P_TDamp
   TenArms <- D_TArm
   TenZero <- NoTz
-  SpPairs <- NoSpS
-  SpArms <- One0
+  SpPairs <- D_Sp
+  SpArms <- D_SpArm1
+  StiffPolys <- P_KPs
+  DampPolys <- P_DPs
+  TenKPolys <- P_KPs
+  TenDPolys <- P_DPs
+  SpStiffs <- P_SpK
+  SpRanges <- P_SpR
+  SpDamps <- P_SpD
   Level = 3
   Tie = FALSE
   Rand = TRUE
@@ -41,4 +48,6 @@ INVARIANT FullGravcompBalances
 INVARIANT RestAtReferenceIsForceFree
 INVARIANT KaneIsRecursive
 INVARIANT JacIsDerivative
+INVARIANT DamperIsOdd
+INVARIANT SpatialJacIsDerivative
 CHECK_DEADLOCK FALSE
